@@ -597,6 +597,13 @@ def _nmap_method(I, ref, c, name, args, kw):
     if name == 'clear':
         I.ctx.setcell(ref, NMap([False] * len(c.pres), c.vals))
         return None
+    if name == 'setdefault':
+        n = _node(I, args[0], 'map.setdefault')
+        d = args[1] if len(args) > 1 else None
+        hit = [Eq(n.idx, i) for i in range(len(c.pres))]
+        vals = [ite_val(And(h, Not(p)), d, v) if v is not None else d for h, p, v in zip(hit, c.pres, c.vals)]
+        I.ctx.setcell(ref, NMap([Or(p, h) for p, h in zip(c.pres, hit)], vals))
+        return I.nmap_select(I.ctx.cell(ref), n)
     if name == 'get':
         n = I.unwrap(args[0], 'map.get')
         d = args[1] if len(args) > 1 else None
